@@ -28,7 +28,7 @@ def _wchoice(rng: random.Random, pairs: list[tuple[Any, float]]) -> Any:
 
 
 def _pop_inter(rng: random.Random, name: str, tier: str) -> dict:
-    pol = _wchoice(rng, [("uniform", 0.5), ("pct", 0.25), ("hot", 0.25)])
+    pol = _wchoice(rng, [("uniform", 0.4), ("pct", 0.2), ("hot", 0.4)])
     pop: dict[str, Any] = {"name": name, "policy": pol}
     if pol == "uniform":
         pop["p"] = rng.choice((0.003, 0.02, 0.1, 0.3))
